@@ -63,8 +63,8 @@ def install_contract() -> None:
         # the property asks for uniqueness per client (tags merged case/punctuation-insensitively), not globally
         per_client: dict[str, list[str]] = {}
         for op in operations:
-            for t in (op.tags or ["default"]):
-                per_client.setdefault(norm(t), []).append(NameSanitizer.sanitize_method_name(op.operation_id))
+            for t in sorted({norm(t) for t in (op.tags or ["default"])}):   # two spellings of one tag = one client
+                per_client.setdefault(t, []).append(NameSanitizer.sanitize_method_name(op.operation_id))
         dup = sorted({f"{k}:{n}" for k, names in per_client.items() for n in names if names.count(n) > 1})
         if dup:
             _contract["bad"].append(dup)
@@ -165,6 +165,12 @@ def mk_doc(ctx: Ctx, allow: set[str]) -> specgen.Doc:
             for meth, op in item.items():
                 if isinstance(op, dict) and "responses" in op and rng.random() < 0.6:
                     tv = list(rng.choice(TAG_VARIANTS))
+                    if rng.random() < 0.25:
+                        # one operation listing two spellings of one tag: it belongs to that tag's client ONCE
+                        tv = list(rng.choice([["datasources", "DataSources"], ["petstore", "petStore"], ["user_admin", "User Admin", "useradmin"],
+                                              ["data_sources", "datasources"], ["PETS", "pets"]]))
+                        rng.shuffle(tv)
+                        d.features.add("one_operation_two_tag_spellings")
                     op["tags"] = tv
                     for e in d.ops:
                         if e["path"] == path and e["method"] == meth.upper():
